@@ -446,35 +446,75 @@ def r14_zone_pair(ctx):
     ef = ctx.try_func("dumpers.TimePointDumper._get_expression_and_properties")
     if ef is not None:
         rep.anchor(rule, "re-zoned operands")
-        # find the if/elif chain on the time string
-        chain = None
-        for n in walk_no_nested(ef.node):
-            if isinstance(n, ast.If) and "endswith('Z')" in U(n.test):
-                chain = n
-        czname = None
-        for n in walk_no_nested(ef.node):
-            if isinstance(n, ast.Return) and isinstance(
-                    n.value, ast.Tuple) and len(n.value.elts) == 3:
-                czname = U(n.value.elts[2])
-        branches = []
-        cur = chain
-        while cur is not None:
-            sets = [x for x in cur.body if isinstance(x, ast.Assign) and
-                    U(x.targets[0]) == czname]
-            branches.append((U(cur.test), bool(sets)))
-            cur = cur.orelse[0] if len(cur.orelse) == 1 and isinstance(
-                cur.orelse[0], ast.If) else None
-        good = bool(branches)
-        for t, has in branches:
-            placeholder = "'+hh'" in t
-            if placeholder == has:
-                good = False
-        rep.check(good, rule, ctx.fkey(ef, None, "zone-branches"), ef.loc(),
-                  "Z / +... / -... formats yield a custom zone, the +hh "
-                  "placeholder yields none",
-                  "custom-zone extraction branches are %s (a literal zone "
-                  "must produce a custom zone, the `+hh` placeholder must "
-                  "not)" % branches, P6 + ("C08",))
+        # decision table of the function: under which conditions on the
+        # time part of the format which custom zone is returned
+        from ..dtable import explore
+        paths = [p for p in explore(ef.node.body) if p.outcome == "return"
+                 and isinstance(p.value, ast.Tuple)
+                 and len(p.value.elts) == 3]
+        if not paths:
+            rep.error("R14", "_get_expression_and_properties: no path "
+                      "returning (expression, properties, custom zone)")
+
+        def atom(p, *needles):
+            """decision of the atom whose text contains all needles"""
+            for k, v in p.decisions.items():
+                if all(n_ in k for n_ in needles):
+                    return v
+            return None
+        problems = []
+        seen_kinds = set()
+        for p in paths:
+            cz = U(p.value.elts[2])
+            z = atom(p, ".endswith('Z')")
+            hh = atom(p, "'+hh' in ")
+            plus = atom(p, "'+' in ")
+            minus = atom(p, "'-' in ")
+            if z:
+                seen_kinds.add("Z")
+                if cz != "(0, 0)":
+                    problems.append("a format ending in Z yields %s" % cz)
+                continue
+            if cz == "(0, 0)":
+                problems.append("(0, 0) is returned without a trailing Z")
+                continue
+            if "get_time_zone(" in cz:
+                sign = "+" if "get_time_zone('+' +" in cz else (
+                    "-" if "get_time_zone('-' +" in cz else None)
+                seen_kinds.add(sign)
+                if hh:
+                    problems.append("the +hh placeholder yields %s" %
+                                    cz[:50])
+                if sign == "+" and not plus:
+                    problems.append("a '+' zone is parsed on a path without "
+                                    "'+' in the format")
+                if sign == "-" and (plus or not minus):
+                    problems.append("a '-' zone is parsed on a path where "
+                                    "the format %s" % (
+                                        "contains '+'" if plus else
+                                        "has no '-'"))
+                if sign is None:
+                    problems.append("custom zone %s is not parsed from the "
+                                    "signed zone text" % cz[:50])
+                continue
+            if cz != "None":
+                problems.append("custom zone is %s" % cz[:50])
+                continue
+            # no custom zone: only without a literal zone in the format
+            if hh is not True and (plus or (minus and plus is not True)):
+                problems.append("a literal %s zone in the format yields no "
+                                "custom zone" % ("+" if plus else "-"))
+        if not {"Z", "+", "-"} <= seen_kinds:
+            problems.append("literal zone kinds handled: %s" %
+                            sorted(k for k in seen_kinds if k))
+        rep.check(not problems, rule, ctx.fkey(ef, None, "zone-branches"),
+                  ef.loc(),
+                  "over %d paths: Z / +... / -... formats yield a custom "
+                  "zone, the +hh placeholder and zone-less formats yield "
+                  "none" % len(paths),
+                  "custom-zone extraction: %s (a literal zone must produce a "
+                  "custom zone, the `+hh` placeholder must not)" %
+                  sorted(set(problems)), P6 + ("C08",))
     # (c) truncated addition: search in the truncated operand's zone, result
     # back in the full operand's zone
     rule = "R14.truncated-zone"
